@@ -53,7 +53,16 @@ def c11Fee (args : List String) (impl : String) : String × String :=
             let inS := totalIn tx
             let outS := totalOut tx
             let want := if inS < outS then false else decide (inS - outS ≥ fee)
-            if fieldD f "paid" != b01 want then "false:fee-sufficiency-predicate" else "true"
+            if fieldD f "paid" != b01 want then "false:fee-sufficiency-predicate"
+            else
+              -- the estimating predicate: the same rule on the estimated sizes the implementation itself reports
+              match (String.ofList ((fieldD f "est").toList.drop 3)).splitOn "," |>.map (·.toNat?), fieldD f "estpaid" with
+              | [some _, some es, some ed], ep =>
+                let feeE := es * fq.stdSat / fq.stdBytes + ed * fq.dataSat / fq.dataBytes
+                let wantE := if inS < outS then false else decide (inS - outS ≥ feeE)
+                if (fieldD f "est").startsWith "ok:" && ep.startsWith "ok:" && ep != "ok:" ++ b01 wantE
+                then "false:estimating-fee-sufficiency-predicate" else "true"
+              | _, _ => "true"
         | _ => "false:shape"
       (model, pred)
     | _, _ => ("bad-op", "n/a")
